@@ -354,6 +354,8 @@ func (s *Shard) SearchPoints(searchRequest models.SearchRequest) ([]models.Searc
 				return fmt.Errorf("could not get point by node id %d: %w", r.NodeId, err)
 			}
 			r.Point = sp.Point
+			// The data belongs to the transaction, it must be copied to be used after it
+			r.Point.Data = bytes.Clone(sp.Point.Data)
 			rSet.Remove(r.NodeId)
 			finalResults = append(finalResults, r)
 		}
@@ -365,6 +367,7 @@ func (s *Shard) SearchPoints(searchRequest models.SearchRequest) ([]models.Searc
 			if err != nil {
 				return fmt.Errorf("could not get point by node id %d: %w", nodeId, err)
 			}
+			sp.Point.Data = bytes.Clone(sp.Point.Data)
 			finalResults = append(finalResults, models.SearchResult{NodeId: nodeId, Point: sp.Point})
 		}
 		// ---------------------------
